@@ -686,6 +686,29 @@ WHAT = {"build-difference": "the two builds behave differently on the same progr
         "host-failure": "host failure (panic/crash) on a generated program"}
 
 
+def zoo_stream(ctx):
+    """object-zoo programs (vlib/zoo.py: heap values and numeric special values held across bursts of garbage) under a
+    collection at every allocation, in both builds: same outcome"""
+    from .. import sched_stream
+    files = sched_stream.write_zoo(ctx, ctx.n(150, 4000), "zoo")
+    for mode in (["--gc every:1"] if ctx.quick() else ["--gc every:1", "--gc every:2 --full 1", ""]):
+        ra, rb = run_both(["%s --steps 400000 %s" % (mode, f) for f in files])
+        for f, a, b in zip(files, ra, rb):
+            oa, ob = outcome(a), outcome(b)
+            ctx.count_case((f, mode), nontrivial=True)
+            if "STEPLIMIT" in (oa[0], ob[0]):
+                continue
+            if oa != ob or not oa[0].startswith(("Ok", "RuntimeError")):
+                ctx.cov["impl_vs_spec_failures"] += 1
+                ctx.violation("zoo", {"engine": "program", "kind": "implementation-vs-spec",
+                                      "what": "the two builds behave differently (or a build crashes) on a program whose values live across collections",
+                                      "mode": mode or "default", "source": open(f).read(), "enum": list(oa), "boxed": list(ob)})
+                return False
+        ctx.stream_stat("zoo", programs=len(files), modes=1)
+    ctx.cov["traces_validated_against_impl"] += 2 * len(files)
+    return True
+
+
 def report_program_failure(ctx, fail, name):
     kind, items, detail = fail
     small = shrink_items(items, kind)
@@ -900,6 +923,8 @@ def run(ctx):
             report_program_failure(ctx, fail, "programs")
             spec_found = True
         if not fixture_stream(ctx):
+            spec_found = True
+        if not spec_found and not zoo_stream(ctx):
             spec_found = True
         replay_known(ctx)
     finally:
